@@ -117,3 +117,15 @@ def d17_reset_plugins_skips():
     left = list(F._plugins.get(scope, []))
     F._plugins.pop(scope, None)
     return len(left) != 0
+
+
+def d20_nonnative_taproot_defines_handle0():
+    ts = _ts()
+    from tapescript import tools
+    from nacl.signing import SigningKey
+    pk = bytes(SigningKey(b'\x07' * 32).verify_key)
+    sc = tools.Script.from_src('call d0 pop0 true')
+    w = tools.make_taproot_witness_scriptspend(pk, sc)
+    a = ts.run_auth_scripts([w.bytes, tools.make_taproot_lock(pk, sc).bytes])
+    b = ts.run_auth_scripts([w.bytes, tools.make_nonnative_taproot_lock(pk, sc).bytes])
+    return a is False and b is True
